@@ -41,47 +41,99 @@ package common
 // fits ni.Idle (not Idle+Releasing), or the task requests nothing.
 //@ define fitsIdle(node *node_info.NodeInfo, task *pod_info.PodInfo) bool = node_info.bestEffort(task) || node_info.fitsAmount(node, task, node.Idle)
 //@ define sharedReq(task *pod_info.PodInfo) bool = task.ResourceRequestType == "Fraction" || task.ResourceRequestType == "GpuMemory"
-// what stmt.Allocate / stmt.Pipeline need (helper preconditions, from the framework contracts)
-//@ define placeReady(ssn *framework.Session, stmt *framework.Statement, task *pod_info.PodInfo, node *node_info.NodeInfo) bool = ssn != nil && framework.stmtOK(stmt) && framework.wfLog(stmt) && task != nil && node != nil && (node.Name in stmt.ssn.ClusterInfo.Nodes ==> (forall k in stmt.ssn.ClusterInfo.Nodes[node.Name].PodInfos :: stmt.ssn.ClusterInfo.Nodes[node.Name].PodInfos[k] != nil))
+// Environment of a statement operation. Like framework's Statement ops (which `assume` jobReady/nodeReady at
+// entry), the units that call stmt.Allocate / stmt.Pipeline ASSUME the session skeleton (stmtOK: session,
+// cluster maps and handler list are non-nil) at their own entry instead of making every caller carry it through
+// plugin callbacks and Rollback (neither re-establishes it, see report); the assumption is listed in the evidence.
+//@ define envOK(stmt *framework.Statement, node *node_info.NodeInfo) bool = framework.stmtOK(stmt) && (node != nil && node.Name in stmt.ssn.ClusterInfo.Nodes ==> (forall k in stmt.ssn.ClusterInfo.Nodes[node.Name].PodInfos :: stmt.ssn.ClusterInfo.Nodes[node.Name].PodInfos[k] != nil))
+// What callers DO carry (proved at every call site): non-nil arguments and the well-formed log.
+//@ define placeReady(ssn *framework.Session, stmt *framework.Statement, task *pod_info.PodInfo, node *node_info.NodeInfo) bool = ssn != nil && stmt != nil && framework.wfLog(stmt) && task != nil && node != nil
 // the log got exactly one new entry and it is an allocate (bind) entry / a pipeline (nominate) entry
 //@ define boundNow(stmt *framework.Statement) bool = framework.appendedOne(stmt) && framework.isAllocateOp(framework.lastOp(stmt))
 //@ define nominatedNow(stmt *framework.Statement) bool = framework.appendedOne(stmt) && framework.isPipelineOp(framework.lastOp(stmt))
-//@ define logKept(stmt *framework.Statement) bool = len(stmt.operations) >= old(len(stmt.operations)) && (forall j int :: 0 <= j && j < old(len(stmt.operations)) ==> stmt.operations[j] == old(stmt.operations[j]))
+//@ define prefixKept(stmt *framework.Statement) bool = forall j int :: 0 <= j && j < old(len(stmt.operations)) ==> stmt.operations[j] == old(stmt.operations[j])
+//@ define lenGrows(stmt *framework.Statement) bool = len(stmt.operations) >= old(len(stmt.operations))
+//@ define logKept(stmt *framework.Statement) bool = lenGrows(stmt) && prefixKept(stmt)
 
 // The only place of the allocate path that issues a real bind (stmt.Allocate). Its precondition IS the
 // property: it is proved at every call site ("bind only what fits Idle").
 //@ func bindTaskToNode
-//@   props C01
+//@   props C01 C03
 //@   requires placeReady(ssn, stmt, task, node)
 //@   requires fitsIdle(node, task)
+//@   assume envOK(stmt, node)
 //@   modifies *
 //@   ensures [boundOnSuccess] result ==> boundNow(stmt) && task.Status == pod_status.Allocated && task.NodeName == old(node.Name)
-//@   ensures [failureKeepsLog] !result ==> stmt.operations == old(stmt.operations)
+//@   ensures [failureKeepsLen] !result ==> len(stmt.operations) == old(len(stmt.operations))
+//@   ensures [lenGrows] lenGrows(stmt)
+//@   ensures [prefixKept] prefixKept(stmt)
+//@   ensures [wfKept] framework.wfLog(stmt)
 //@ end
 
 //@ func pipelineTaskToNode
-//@   props C01
+//@   props C01 C03
 //@   requires placeReady(ssn, stmt, task, node)
+//@   assume envOK(stmt, node)
 //@   modifies *
-//@   ensures [logKept] logKept(stmt)
+//@   ensures [lenGrows] lenGrows(stmt)
+//@   ensures [prefixKept] prefixKept(stmt)
 //@   ensures [nominatedOnSuccess] updateTasksIfExistsOnNode && result ==> nominatedNow(stmt) && task.NodeName == old(node.Name)
-//@ end
-
-// STUB (weakest possible: anything may change, nothing is promised) so that the fractional branch is a call
-// and not an inlined body; to be replaced by the gpu_sharing helper's own contract.
-//@ func github.com/NVIDIA/KAI-scheduler/pkg/scheduler/gpu_sharing.AllocateFractionalGPUTaskToNode
-//@   modifies *
-//@   note stub in actions/common: the fractional decision (C02/C01) is under contract in gpu_sharing; here only "may change anything"
+//@   ensures [wfKept] framework.wfLog(stmt)
 //@ end
 
 //@ func allocateTaskToNode
-//@   props C01
+//@   props C01 C03
 //@   requires placeReady(ssn, stmt, task, node)
-//@   requires node_info.nodeReadable(node) && node_info.taskReadable(task)
+//@   assume envOK(stmt, node) && node_info.nodeReadable(node) && node_info.taskReadable(task)
 //@   modifies *
 //@   # C01 "IsTaskAllocatable (fits Idle) decides bind vs pipeline": a bind entry appears only if the request fitted Idle at entry
 //@   ensures [bindOnlyIfFitsIdle] !old(sharedReq(task)) && !isPipelineOnly && result && boundNow(stmt) ==> old(fitsIdle(node, task))
 //@   ensures [decisionIsIsTaskAllocatable] !old(sharedReq(task)) && !isPipelineOnly && result ==> (boundNow(stmt) <==> old(node.IsTaskAllocatable(task)))
 //@   ensures [elseNominated] !old(sharedReq(task)) && !isPipelineOnly && result && !old(node.IsTaskAllocatable(task)) ==> nominatedNow(stmt)
-//@   ensures [lenGrows] !old(sharedReq(task)) ==> len(stmt.operations) >= old(len(stmt.operations))
+//@   ensures [lenGrows] !old(sharedReq(task)) ==> lenGrows(stmt)
+//@   ensures [prefixKept] !old(sharedReq(task)) ==> prefixKept(stmt)
+//@   ensures [wfKept] !old(sharedReq(task)) ==> framework.wfLog(stmt)
 //@ end
+
+// ---- solver ----
+// (section owned by helper "solver"; alloc: when you put EvictAllPreemptees / GetJobsToAllocate /
+// TryToVirtuallyAllocatePreemptorAndGetVictims under a VERIFIED contract, REPLACE the block here - a duplicate
+// key is a parse error - and keep the clause tags, the solver layer is proved against them.)
+// TRUSTED for now: the three functions call Statement.Evict / AllocateJob repeatedly; framework's statement
+// operations are `modifies *` and do not re-establish stmtOK(s) for the next call, and AllocateJob has no
+// contract yet, so their bodies cannot be verified today. What is assumed is only how they treat the
+// statement log they are given (C06 "evictions and preemptor pipeline share one Statement").
+//@ func EvictAllPreemptees
+//@   props C06
+//@   trusted
+//@   note trusted (to be replaced by alloc's verified contract): the body calls stmt.Evict(task, ...) for the tasks of preempteeTasks in order and stops at the first error; Evict appends one evict entry for its task on success and leaves the log alone on error (framework [appendsOneEvict] [capturesTask] [errorKeepsLog])
+//@   requires stmt != nil && framework.wfLog(stmt)
+//@   modifies *
+//@   ensures [wfKept] framework.wfLog(stmt)
+//@   ensures [lenGrows] lenGrows(stmt)
+//@   ensures [prefixKept] prefixKept(stmt)
+//@   ensures [tasksKept] forall i int :: 0 <= i && i < len(preempteeTasks) ==> preempteeTasks[i] == old(preempteeTasks[i])
+//@   ensures [onlyEvictsOfPreemptees] forall j int :: old(len(stmt.operations)) <= j && j < len(stmt.operations) ==> framework.isEvictOp(stmt.operations[j]) && (exists i int :: 0 <= i && i < len(preempteeTasks) && framework.opTask(stmt.operations[j]) == preempteeTasks[i])
+//@   ensures [allEvictedOnSuccess] result == nil ==> len(stmt.operations) == old(len(stmt.operations)) + len(preempteeTasks)
+//@ end
+//@ func GetJobsToAllocate
+//@   props C06
+//@   trusted
+//@   note trusted (to be replaced by alloc's verified contract): builds a fresh JobsOrderByQueues from the pending jobs, the victims' jobs and the preemptor (utils.GetAllPendingJobs / NewJobsOrderByQueues / InitializeWithJobs); touches no statement
+//@   modifies *
+//@   ensures [resultNonNil] result != nil
+//@   ensures [logsSame] forall st *framework.Statement :: old(allocated(st)) ==> st.operations == old(st.operations) && len(st.operations) == old(len(st.operations)) && (forall j int :: 0 <= j && j < len(st.operations) ==> st.operations[j] == old(st.operations[j]))
+//@   ensures [tasksKept] forall i int :: 0 <= i && i < len(preempteeTasks) ==> preempteeTasks[i] == old(preempteeTasks[i])
+//@ end
+//@ func TryToVirtuallyAllocatePreemptorAndGetVictims
+//@   props C06
+//@   trusted
+//@   note trusted (to be replaced by alloc's verified contract): places jobs only through AllocateJob(ssn, stmt, ...), i.e. stmt.Allocate / stmt.Pipeline / stmt.Rollback of the statement it is given; these keep the log well-formed and its prefix (framework [lenGrows] [prefixKept] [newEntriesOK]); no claim about WHICH entries are appended
+//@   requires stmt != nil && framework.wfLog(stmt)
+//@   modifies *
+//@   ensures [wfKept] framework.wfLog(stmt)
+//@   ensures [lenGrows] lenGrows(stmt)
+//@   ensures [prefixKept] prefixKept(stmt)
+//@   ensures [tasksKept] forall i int :: 0 <= i && i < len(preempteeTasks) ==> preempteeTasks[i] == old(preempteeTasks[i])
+//@ end
+// ---- end solver ----
